@@ -30,6 +30,12 @@ Spec == Init /\ [][Next]_vars
 (* ---- C17 ---- *)
 IterBound == cur.itlim > 0 => cur.iters <= cur.itlim
 NoIterationAfterBudget == okstart
+(* every pass through the loop counts: a successful loop test is followed by an iteration end (or the *)
+(* end of the search) before the conditions are consulted again                                      *)
+EveryPassIsAnIteration == [][(cur.ev = "LoopTest" /\ cur.res) => cur'.ev # "LoopTest"]_vars
+(* every configured budget is enforced by a stopping condition of the algorithm *)
+ConfiguredBudgetsEnforced ==
+  /\ (cur.itlim > 0 => cur.has_it) /\ (cur.exlim > 0 => cur.has_ex) /\ (cur.stlim > 0 => cur.has_st)
 (* the run ended: no LoopTest is pending when the search returns *)
 SearchReturns == l = Len(Traces[tid].ev) => cur.ev = "SearchEnd"
 =============================================================================
